@@ -55,6 +55,44 @@ theorem dropSpaces_left (l r : List Byte) :
   obtain ⟨sp, body, h1, h2, h3, _⟩ := dropSpaces_split l r
   exact ⟨sp, by simp [h3], h2, by rw [h3]; exact h1⟩
 
+/-! ### stream operations on a good stream -/
+theorem ws_good (l sp : List Byte) (c : Byte) (t : List Byte) (sk : Bool) (hsp : sp.all isSpace = true)
+    (hc : isSpace c = false) :
+    IStream.ws { left := l, right := sp ++ c :: t, eof := false, fail := false, bad := false, skipws := sk } =
+      { left := sp.reverse ++ l, right := c :: t, eof := false, fail := false, bad := false, skipws := sk } := by
+  simp [IStream.ws, IStream.sentry, IStream.good, dropSpaces_append _ _ _ hsp, dropSpaces_nonspace _ _ _ hc]
+
+theorem ws_good0 (l : List Byte) (c : Byte) (t : List Byte) (sk : Bool) (hc : isSpace c = false) :
+    IStream.ws { left := l, right := c :: t, eof := false, fail := false, bad := false, skipws := sk } =
+      { left := l, right := c :: t, eof := false, fail := false, bad := false, skipws := sk } := by
+  simpa using ws_good l [] c t sk (by simp) hc
+
+theorem ws_blank (l sp : List Byte) (sk : Bool) (hsp : sp.all isSpace = true) :
+    IStream.ws { left := l, right := sp, eof := false, fail := false, bad := false, skipws := sk } =
+      { left := sp.reverse ++ l, right := [], eof := true, fail := false, bad := false, skipws := sk } := by
+  have := dropSpaces_append sp l [] hsp
+  simp only [List.append_nil] at this
+  simp [IStream.ws, IStream.sentry, IStream.good, this, dropSpaces]
+
+theorem peekC_good (l : List Byte) (c : Byte) (t : List Byte) (sk : Bool) :
+    IStream.peekC { left := l, right := c :: t, eof := false, fail := false, bad := false, skipws := sk } =
+      (c, { left := l, right := c :: t, eof := false, fail := false, bad := false, skipws := sk }) := by
+  simp [IStream.peekC, IStream.peek, IStream.sentry, IStream.good]
+
+theorem ignore1_good (l : List Byte) (c : Byte) (t : List Byte) (sk : Bool) :
+    IStream.ignore1 { left := l, right := c :: t, eof := false, fail := false, bad := false, skipws := sk } =
+      { left := c :: l, right := t, eof := false, fail := false, bad := false, skipws := sk } := by
+  simp [IStream.ignore1, IStream.sentry, IStream.good]
+
+/-- `in >> long` on a good stream whose next character is not a blank -/
+theorem extractLong_good (l : List Byte) (c : Byte) (t : List Byte) (hc : isSpace c = false) :
+    IStream.extractLong { left := l, right := c :: t, eof := false, fail := false, bad := false, skipws := true } =
+      (some (scanInt longMin longMax l (c :: t)).1.value,
+       { left := (scanInt longMin longMax l (c :: t)).2.1, right := (scanInt longMin longMax l (c :: t)).2.2,
+         eof := (scanInt longMin longMax l (c :: t)).2.2.isEmpty, fail := (scanInt longMin longMax l (c :: t)).1.fail,
+         bad := false, skipws := true }) := by
+  simp [IStream.extractLong, IStream.sentry, IStream.good, dropSpaces_nonspace _ _ _ hc]
+
 /-! ### spanDigits / digitsVal -/
 theorem spanDigits_spec (ds : List Byte) (acc l r : List Byte) (hds : ds.all isDigit = true)
     (hr : r = [] ∨ ∃ c t, r = c :: t ∧ isDigit c = false) :
@@ -320,5 +358,52 @@ theorem cri_char (s : IStream) (e : Sev) (hb : s.bad = false) :
         simp [checkRemainingInput, IStream.clear, IStream.ws, IStream.sentry, IStream.good, h3,
           IStream.peekC, IStream.peek, hd']
         split <;> simp [greater_warning_err, greater_inputError_err]
+
+/-- `CheckRemainingInput` never consumes a delimiter: what it moves to the consumed side contains none -/
+theorem cri_left (s : IStream) (e : Sev) (hb : s.bad = false) :
+    ∃ m, (checkRemainingInput (some attrDelims) s e).1.left = m.reverse ++ s.left ∧
+      s.right = m ++ (checkRemainingInput (some attrDelims) s e).1.right ∧
+      ∀ b ∈ m, isDelim attrDelims b = false := by
+  obtain ⟨l, r, eof, fail, bad, sk⟩ := s
+  simp only at hb
+  subst hb
+  cases eof with
+  | true => exact ⟨[], by simp [checkRemainingInput], by simp [checkRemainingInput], by simp⟩
+  | false =>
+    obtain ⟨sp, body, h1, h2, h3, h4⟩ := dropSpaces_split l r
+    have hsplit : ∀ x, x ∈ sp → isDelim attrDelims x = false := fun x hx => space_not_delim (List.all_eq_true.mp h2 x hx)
+    rcases h4 with rfl | ⟨c, t, rfl, hc⟩ <;> subst h1
+    · have h3' : dropSpaces l sp = (sp.reverse ++ l, []) := by simpa using h3
+      refine ⟨sp, ?_, ?_, hsplit⟩ <;>
+        simp [checkRemainingInput, IStream.clear, IStream.ws, IStream.sentry, IStream.good, h3']
+    · by_cases hd : isDelim attrDelims c = true
+      · refine ⟨sp, ?_, ?_, hsplit⟩ <;>
+          simp [checkRemainingInput, IStream.clear, IStream.ws, IStream.sentry, IStream.good, h3,
+            IStream.peekC, IStream.peek, hd]
+      · have hd' : isDelim attrDelims c = false := by simpa using hd
+        obtain ⟨m, rest, hm1, hm2, hm3⟩ := skipTo_spec attrDelims c (sp.reverse ++ l) (c :: t) hd'
+        rcases hm3 with ⟨hr, c', hc', hs⟩ | ⟨d, t', hr, hdd, hs⟩
+        · subst hr
+          refine ⟨sp ++ m, ?_, ?_, ?_⟩
+          · simp [checkRemainingInput, IStream.clear, IStream.ws, IStream.sentry, IStream.good, h3,
+              IStream.peekC, IStream.peek, hd', hs, hc']
+          · simp [checkRemainingInput, IStream.clear, IStream.ws, IStream.sentry, IStream.good, h3,
+              IStream.peekC, IStream.peek, hd', hs, hc']
+            simpa using hm1
+          · intro b hb
+            rcases List.mem_append.mp hb with hb | hb
+            · exact hsplit b hb
+            · exact hm2 b hb
+        · subst hr
+          refine ⟨sp ++ m, ?_, ?_, ?_⟩
+          · simp [checkRemainingInput, IStream.clear, IStream.ws, IStream.sentry, IStream.good, h3,
+              IStream.peekC, IStream.peek, hd', hs, hdd, IStream.putback]
+          · simp [checkRemainingInput, IStream.clear, IStream.ws, IStream.sentry, IStream.good, h3,
+              IStream.peekC, IStream.peek, hd', hs, hdd, IStream.putback]
+            simpa using hm1
+          · intro b hb
+            rcases List.mem_append.mp hb with hb | hb
+            · exact hsplit b hb
+            · exact hm2 b hb
 
 end StepModel.P21.Lemmas
